@@ -229,7 +229,12 @@ func (p *Parser) Parse() (*SelectStatement, error) {
 	// parseWith and saw WITH, so the clause used to be dropped without an error.
 	if stmt.Having == "" {
 		snap := p.lexer.save()
-		if tok := p.lexer.NextToken(); tok.Type == TokenHAVING {
+		tok := p.lexer.NextToken()
+		if tok.Type == TokenRParen {
+			// the closing parenthesis of WITH ( ... ) is still ahead when blanks precede it
+			tok = p.lexer.NextToken()
+		}
+		if tok.Type == TokenHAVING {
 			if err := p.parseHaving(stmt); err != nil {
 				if !p.errorRecovery.RecoverFromError(ErrorTypeSyntax) {
 					return nil, p.createDetailedError(err)
